@@ -63,7 +63,7 @@ Step == /\ Is("step")
         /\ status' = Put(status, Ev.tid, Ev.st)
         /\ queue' = Rotate(queue, Ev.tid, Ev.st)
         /\ mainDone' = (mainDone \/ (Ev.tid = Main /\ Ev.st = "done"))
-        /\ h' = IF HKey \in DOMAIN h THEN h ELSE Put(h, HKey, Ev.d0 - Ev.b0)
+        /\ h' = IF HKey \in DOMAIN h /\ h[HKey] = Ev.d0 - Ev.b0 THEN h ELSE Put(h, HKey, Ev.d0 - Ev.b0)   \* (re-synchronise after a report)
         /\ IF ~inCall THEN Bad("step-outside-run", Ev.tid)
            ELSE IF mainDone THEN Bad("ran-after-main-finished", Ev.tid)
            ELSE IF consumed >= k THEN Bad("budget-exceeded", <<consumed + 1, k>>)
